@@ -136,6 +136,16 @@ add("C05", "model_checking", E2 + " over assignment histories per field type wit
     "also after a history; keyword-named fields (slow generated class) included.",
     "For wrong-kind candidates only the invariant is demanded; the must-reject table lists only what the statement names.", "DESIGN.md C05")
 
+add("C06", "exploration", E1 + " (all strings up to length 3/4 over a 16-character alphabet as type and field names, affixes over all control characters, "
+    + "payload lists, type strings; 5 delivery doors; recogniser + AST allow-list on every generated source)",
+    "Every string of length 0..3 (4 thorough) over an alphabet with ASCII, separators, newline, NUL, non-ASCII letter/digit/look-alike, every "
+    "valid-stem affix over all control characters, ~150 hostile payloads / keywords / template identifiers / long names, ~110 field-type "
+    "strings and identifier-colliding twin definitions, delivered through constructor, crafted descriptor frame, JSON descriptor line and "
+    "two kinds of Avro schema: whatever the hand-written recogniser rejects is rejected by every door; accepted classes have exactly the "
+    "declared slots + metadata, neutral metadata and whitelisted field classes; every source handed to exec matches the template's AST "
+    "shape; no module outside the field-type packages is imported; no tripwire fires.",
+    "Rejection = any exception; refusing a well-formed name (keywords as type names) is counted, not judged.", "DESIGN.md C06")
+
 NOT_BUILT = "check not built yet in this round (design in DESIGN.md section 3); not claimed until it runs"
 
 
